@@ -28,7 +28,8 @@ def f3_region(o):
 
 @st.composite
 def cases(draw, tier="quick"):
-    return dict(spec=draw(plotgen.plot_specs(thin=True, many=True, max_cells=3000 if tier == "quick" else 10000, max_fields=5)))
+    return dict(spec=draw(plotgen.plot_specs(thin=True, many=True, level_prefix=True, max_cells=3000 if tier == "quick" else 10000, max_fields=5)),
+                via_code=draw(st.integers(0, 2 ** 16)))
 
 
 def compact(case):
@@ -40,7 +41,11 @@ def check_case(case, ctx):
     from amr_kitchen.taste import Taster
     ctx.fresh()
     plot = plotgen.Plot(case["spec"])
-    plotgen.write(plot, "src")
+    from ..harness import VIAS, place_plotfile
+    via = VIAS[case.get("via_code", 0) % len(VIAS)]
+    src = place_plotfile(lambda pth: plotgen.write(plot, pth), via)
+    if via:
+        ctx.label("path:" + via)
     labs = plot.labels()
     ctx.label(*labs)
     ctx.nontrivial(plot.nlev >= 2 or "scattered" in labs or "non-monotone" in labs)
@@ -57,7 +62,7 @@ def check_case(case, ctx):
             for nofail in (False, True):
                 ctx.counters["constructions"] += 1
                 try:
-                    ok = qcall(lambda: bool(Taster("src", limit_level=limit, nofail=nofail, **kw)))
+                    ok = qcall(lambda: bool(Taster(src, limit_level=limit, nofail=nofail, **kw)))
                 except Exception as e:
                     v.append(f"options headers={o[0]} shape={o[1]} data={o[2]} coords={o[3]} limit={limit} "
                              f"nofail={nofail}: raised {type(e).__name__}: {str(e)[:200]}")
@@ -77,7 +82,7 @@ def check_case(case, ctx):
         from . import common
         for flags in ([], ["-bc"], ["-nh"], ["-ns", "-bc"], ["-nf"], ["-bd"]):
             for limit in [None, 0]:
-                argv = ["taste", "src", "-v", "0"] + flags + (["-l", str(limit)] if limit is not None else [])
+                argv = ["taste", src, "-v", "0"] + flags + (["-l", str(limit)] if limit is not None else [])
                 ctx.counters["cli_runs"] += 1
                 try:
                     common.run_main(cli.main, argv)
